@@ -403,7 +403,10 @@ def _exit_mode(scratch):
     return p
 
 
-def _subcommands(scratch):
+def _subcommands(scratch, required=True):
+    """Two subcommands; required=True is the default of add_subcommands (a configuration must name its subcommand),
+    required=False makes the choice optional: a configuration may then hold settings of subcommands without saying
+    which one is meant (the library chooses implicitly)."""
     from typing import Dict, List, Tuple
 
     from mc.fixtures.c08.lib import E
@@ -415,10 +418,42 @@ def _subcommands(scratch):
     fit.add_argument("--l", type=List[Dict[str, int]], default=[{"a": 1}])
     test = _parser()
     test.add_argument("--m", type=Dict[str, List[int]], default={"k": [1]})
-    sc = p.add_subcommands()
+    sc = p.add_subcommands(required=required)
     sc.add_subcommand("fit", fit)
     sc.add_subcommand("test", test)
     return p
+
+
+def _subcommands_optional(scratch):
+    return _subcommands(scratch, required=False)
+
+
+def _subcommand_configs():
+    """Configurations of the two subcommand shapes: three complete ones (raw / raw / final form), then the whole
+    product  explicit choice in {absent, fit, test}  x  settings given for a subset of {fit, test}  (one raw and one
+    final leaf per value).  Absent choice + settings = the library has to choose; explicit choice + settings of the
+    other subcommand = the library has to drop a branch.  The first six get every invalid position as well."""
+    fit = {"__ns__": {"l": [{"a": "1", "b": 2}]}}
+    test = {"__ns__": {"m": {"k": ["1", 2]}}}
+    cfgs = [
+        {"v": ["1"], "subcommand": "fit", "fit": {"__ns__": {"t": [["A", "B"], "2"], "l": [{"a": "1"}, {"b": 2}]}}},
+        {"subcommand": "test", "test": {"__ns__": {"m": {"k": ["1", 2]}}}},
+        {"v": [1], "subcommand": "fit", "fit": {"__ns__": {"t": _t([E_A], 2)}}},
+    ]
+    product = []
+    for choice in (None, "test", "fit"):
+        for with_fit in (True, False):
+            for with_test in (True, False):
+                cfg = {} if choice is None else {"subcommand": choice}
+                if with_fit:
+                    cfg["fit"] = fit
+                if with_test:
+                    cfg["test"] = test
+                product.append(cfg)
+    # simplest-first would put the empty configuration first; the ones that make the library choose or drop come
+    # first instead, because only the first six configurations of a shape get the invalid-position variants
+    front = [c for c in product if "fit" in c and ("test" in c or "subcommand" not in c)][:3]
+    return cfgs + front + [c for c in product if c not in front and c not in cfgs]
 
 
 def _paths(scratch):
@@ -717,15 +752,8 @@ NAMED = {
         "config_option": True,
         "configs": [{"g": {"__ns__": {"t": [["A", "B"], "1"]}}, "d": {"k": ["1"], "m": [2]}}],
     },
-    "subcommands": {
-        "make": _subcommands,
-        "subcommand_key": "subcommand",
-        "configs": [
-            {"v": ["1"], "subcommand": "fit", "fit": {"__ns__": {"t": [["A", "B"], "2"], "l": [{"a": "1"}, {"b": 2}]}}},
-            {"subcommand": "test", "test": {"__ns__": {"m": {"k": ["1", 2]}}}},
-            {"v": [1], "subcommand": "fit", "fit": {"__ns__": {"t": _t([E_A], 2)}}},
-        ],
-    },
+    "subcommands": {"make": _subcommands, "subcommand_key": "subcommand", "configs": _subcommand_configs()},
+    "subcommands_optional": {"make": _subcommands_optional, "subcommand_key": "subcommand", "configs": _subcommand_configs()},
     "paths": {
         "make": _paths,
         "files": True,
